@@ -296,7 +296,27 @@ def run_public(spec, acc):
                             frames2 = encode_frames(enc2, fmt, m2)
                 except Exception:  # noqa: BLE001
                     frames2, expect2 = [], None
+                half_done = c % 4 == 1 and len(frames) > 1
+                if half_done:
+                    # right before this message the same stream carried a complete message that the codec refuses (a field out of
+                    # range: an error at its last frame), with another sequence counter; and while this message is in transit a
+                    # neighbouring stream starts a long message of its own
+                    from .c04 import refused_payloads
+                    ref_ = refused_payloads(d.pgn, rng)
+                    if ref_:
+                        q_ = (seq + 3) % 8
+                        for f_ in wire.fast_frames(rng.choice(ref_), q_, 0xFF):
+                            try:
+                                dec.decode_tcp(wire.ebyte_frame(wire.can_id(3, d.pgn, 7, 255), f_))
+                            except Exception:  # noqa: BLE001  (the refusal)
+                                acc.count("refused_messages_on_the_stream_right_before")
                 for k, (ident, data, raw) in enumerate(frames):
+                    if half_done and k > 0:
+                        try:
+                            dec.decode_tcp(wire.ebyte_frame(wire.can_id(3, d.pgn, 8, 255), bytes([((seq + k) % 8) << 5, 40]) + bytes(6)))
+                        except Exception:  # noqa: BLE001
+                            pass
+                        acc.count("neighbour_stream_frames_between_frames")
                     if c % 3 == 0 and k > 0:
                         # between two frames other devices claim addresses (first claims and take-overs by another NAME);
                         # addresses 2 and 25 share decimal digits with this stream's destination 255, 70 with its source 7
